@@ -18,6 +18,11 @@ RULE = {
 }
 
 
+# a second rule processed by the SAME pipeline object afterwards: its field list has, as an original entry, the name the
+# first rule's fieldA was renamed to; nothing in its detection is touched by the preceding items
+RULE2 = dict(RULE, fields=["fieldB"], detection={"sel": {"fieldQ": 1}, "condition": "sel"})
+
+
 def cond_dict(level, c):
     t = c["t"]
     if level == "rule":
@@ -158,16 +163,21 @@ def drive_case(case):
         p.apply(r)
         # (a one-to-many renaming replaces an item by a nested detection holding one item per new name)
         items = [j for i in r.detection.detections["sel"].detection_items for j in (i.detection_items if hasattr(i, "detection_items") else [i])]
-        return {
+        out = {
             "items": [str(i.field).endswith("_M") for i in items],
             "refs": [v.field.endswith("_M") for i in items for v in i.value if type(v).__name__ == "SigmaFieldReference"],
             "fields": [f.endswith("_M") for f in r.fields],
             "rule": p.state.get("mark") == "1",
         }
+        r2 = SigmaRule.from_dict(copy.deepcopy(RULE2))
+        p.apply(r2)
+        out["second"] = {"fields": [f.endswith("_M") for f in r2.fields], "rule": p.state.get("mark") == "1",
+                         "items": [str(i.field).endswith("_M") for i in r2.detection.detections["sel"].detection_items]}
+        return out
 
     ret = outcome(go)
     if not ret["ok"]:
-        ret["out"] = {"items": [], "fields": [], "rule": False, "refs": []}
+        ret["out"] = {"items": [], "fields": [], "rule": False, "refs": [], "second": {"fields": [], "rule": False, "items": []}}
     return {"id": case["id"], "G": case["G"], "pp": "-", "nest": bool(case.get("nest")), "ret": ret}
 
 
